@@ -94,6 +94,7 @@ def corpus_requests(thorough):
     for named, fields in c09.layouts(3 if thorough else 2):
         for container in ("struct", "enum"):
             reqs.append({"derive": "Error", "item": c09.item_text(named, fields, container, lambda f, i: ("my::Backtrace" if f["ty"] == "bt" else "E%d" % i))})
+    reqs += repo_inputs()
     # textual twins: the same item with its generic parameter list removed, so that `T`, `U`, `N`, 'a in its field types now
     # name concrete things - any state kept between expansions that is keyed by token text confuses the two
     twins = []
@@ -108,6 +109,42 @@ def corpus_requests(thorough):
         if k not in seen:
             seen.add(k)
             out.append(q)
+    return out
+
+
+_REPO_INPUTS = None
+
+
+def repo_inputs():
+    """Every derive input written in the repository's own tests (tests/*.rs, items in modules and function bodies) and in the
+    examples of its documentation (impl/doc/*.md, README.md): what the maintainers themselves consider ordinary use.  Extracted
+    from the current tree by the engine's `cover --dump --bare` (syn), so it follows the tree under test."""
+    global _REPO_INPUTS
+    if _REPO_INPUTS is not None:
+        return _REPO_INPUTS
+    files = sorted(os.path.join(dp, f) for dp, _, fs in os.walk(os.path.join(REPO, "tests")) for f in fs if f.endswith(".rs"))   # incl. tests/compile_fail: rejected inputs are inputs too
+    d = os.path.join(WORK, "c19-docs")
+    shutil.rmtree(d, ignore_errors=True)
+    os.makedirs(d)
+    docs = [os.path.join(REPO, "README.md")] + sorted(os.path.join(REPO, "impl", "doc", f) for f in os.listdir(os.path.join(REPO, "impl", "doc")) if f.endswith(".md"))
+    for md in docs:
+        try:
+            text = open(md).read()
+        except OSError:
+            continue
+        for k, m in enumerate(re.finditer(r"```rust[^\n]*\n(.*?)```", text, re.S)):
+            body = "\n".join(l[2:] if l.startswith("# ") else ("" if l.strip() == "#" else l) for l in m.group(1).split("\n"))
+            path = os.path.join(d, "%s_%d.rs" % (os.path.basename(md)[:-3], k))
+            with open(path, "w") as f:
+                f.write(body)
+            files.append(path)
+    p = subprocess.run([inproc_bin(), "cover", "--dump", "--bare"] + files, stdout=subprocess.PIPE, stderr=subprocess.PIPE, text=True, env=base_env(), timeout=600)
+    if p.returncode != 0:
+        raise MachineryError("cover --dump failed: " + p.stderr[-500:])
+    out = [json.loads(l) for l in p.stdout.splitlines() if l.strip()]
+    if len(out) < 500:
+        raise MachineryError("only %d derive inputs extracted from the repository's tests and docs (expected thousands)" % len(out))
+    _REPO_INPUTS = out
     return out
 
 
